@@ -79,7 +79,12 @@ func genArg(t *rapid.T, conv string) Arg {
 		if k < 14 {
 			return Arg{Kind: "num", Num: float64(rapid.SampledFrom([]int{0x100, 0x3b1, 0x20ac, 0x1F600, 0x10FFFF, 128, 233}).Draw(t, "ucode"))}
 		}
-		return Arg{Kind: "str", Str: h.Str(rapid.SampledFrom(strVals).Draw(t, "cstr"))}
+		if k < 17 {
+			return Arg{Kind: "str", Str: h.Str(rapid.SampledFrom(strVals).Draw(t, "cstr"))}
+		}
+		// a field: text that looks entirely like a number is a number (the character with that code), anything
+		// else a string (its first character)
+		return Arg{Kind: "field", Str: h.Str(rapid.SampledFrom([]string{"65", "66.9", "abc", "97", "233", "8364", " 67 ", "1e2", "+72", "12abc", "6", "9x", "255", "256", "é1"}).Draw(t, "cfield"))}
 	case k < 7:
 		return Arg{Kind: "num", Num: rapid.SampledFrom(intVals).Draw(t, "int")}
 	case k < 9:
